@@ -303,6 +303,9 @@ func Run(c *core.Ctx) {
 	scns := gateScenarios()
 	reps := c.Pick(1, 3)
 	c.Parallel(1, "gate", len(scns)*reps, func(slot, idx int) {
+		if c.Race && quick && idx%2 == 1 && !c.Replay() {
+			return // quick race build: every other scenario
+		}
 		runGate(c, slot, "gate", idx, scns[idx%len(scns)])
 	})
 
@@ -318,7 +321,7 @@ func Run(c *core.Ctx) {
 	if c.Race {
 		// the race build is an additional, slower scheduler; its reports about
 		// breakpoint changes racing with a running thread decide (race_rule)
-		nprog, nsink = c.Pick(320, 9000), c.Pick(64, 1200)
+		nprog, nsink = c.Pick(200, 9000), c.Pick(40, 1200)
 	}
 	c.Parallel(par, "prog", nprog, func(slot, idx int) {
 		p := genProgram(c.Rng("prog-src", idx/cfgsPerProgram))
